@@ -39,21 +39,35 @@ def ident(lst):
 history_prelude = gen.history_prelude
 
 
+class _KindStr(str):
+    """A str subclass, as the members of a `class Rel(str, Enum)` are."""
+
+
 def run_case(case, res):
     from nutree.typed_tree import ANY_KIND, TypedTree
 
     f = gen.decode(case["f"])
     kinds = case["kinds"]
     n = gen.size(f)
-    t = TypedTree("t")
+    t = gen.ext_classes()["XTypedTree"]("t") if case.get("ext") else TypedTree("t")
     # kinds are two-character strings built at run time, so that the objects stored in the
     # tree and the ones used in queries are equal but not identical
     pre = "k"
-    mk = lambda ch: "" if ch == "c" else pre + ch  # the empty string is a legal kind too
+    sub = bool(case.get("kindsub"))  # kinds (stored and queried) are instances of a str subclass, like StrEnum members
+    wrapk = (lambda v: _KindStr(v)) if sub else (lambda v: v)
+    mk = lambda ch: wrapk("" if ch == "c" else pre + ch)  # the empty string is a legal kind too
     if case["lab"] == "uniq":
         nodes = gen.build(t, f, lambda i: f"n{i}", kind=lambda i: mk(kinds[i]))
     else:
         nodes = gen.build(t, f, lambda i: "x", kind=lambda i: mk(kinds[i]), data_id=lambda i: f"id{i}")
+    if case.get("bycopy") and len(nodes) >= 2:
+        # a kind that exists in this tree only on nodes that were created by adding an existing node
+        for a, b in ((nodes[0], nodes[-1]), (nodes[-1], nodes[0])):
+            try:
+                a.add(b, kind=wrapk("konly"))
+            except Exception:
+                pass
+        nodes = list(t)
     if case.get("prelude"):
         nodes = history_prelude(t, nodes, rng_for(case.get("pseed", 0), "c15-prelude", case["f"], case["kinds"]), True)
     holders = [t._root] + nodes
@@ -88,8 +102,8 @@ def run_case(case, res):
                 same = [s for s in sibs if s.kind == x.kind]
                 j = next(k for k, s in enumerate(same) if s is x)
                 K = list(x.children)
-                for kch in KINDS + "q":
-                    kind = "" if kch == "c" else "".join(["k", kch])
+                for kch in KINDS + "qo":
+                    kind = wrapk("konly" if kch == "o" else "" if kch == "c" else "".join(["k", kch]))
                     kk = [c for c in K if c.kind == kind]
                     chk(f"get_children({kind})", attempt(lambda: x.get_children(kind)), kk, x)
                     chk(f"first_child({kind})", attempt(lambda: x.first_child(kind)), kk[0] if kk else None, x)
@@ -143,8 +157,8 @@ def run_case(case, res):
                     rec(list(c.children))
 
             rec(top)
-            for kch in KINDS + "q":
-                kind = "" if kch == "c" else "".join(["k", kch])
+            for kch in KINDS + "qo":
+                kind = wrapk("konly" if kch == "o" else "" if kch == "c" else "".join(["k", kch]))
                 kk = [c for c in top if c.kind == kind]
                 chk(f"tree.first_child({kind})", attempt(lambda: t.first_child(kind)), kk[0] if kk else None, None)
                 chk(f"tree.last_child({kind})", attempt(lambda: t.last_child(kind)), kk[-1] if kk else None, None)
@@ -206,6 +220,8 @@ def run_shard(spec, res):
                         run_case({"f": fc, "kinds": a[:n], "lab": "uniq", "prelude": True, "pseed": ai}, res)
                     if n >= 2 and ai % 3 == 1:
                         run_case({"f": fc, "kinds": a[:n], "lab": "uniq", "resort": True}, res)
+                    if n >= 2 and ai % 3 == 2:
+                        run_case({"f": fc, "kinds": a[:n], "lab": "uniq", "kindsub": True, "ext": ai % 2 == 0, "bycopy": ai % 4 < 2}, res)
                 for a in assigns[:: max(1, len(assigns) // 6)]:
                     run_case({"f": fc, "kinds": a[:n], "lab": "eqsib"}, res)
                 if res.expired():
@@ -218,6 +234,7 @@ def run_shard(spec, res):
             f = gen.random_forest(rng, rng.randint(7, 25))
             n = gen.size(f)
             run_case({"f": gen.code(f), "kinds": "".join(rng.choice(KINDS) for _ in range(n)), "lab": rng.choice(["uniq", "eqsib"]),
-                      "prelude": rng.random() < 0.5, "pseed": rng.randrange(10**6), "resort": rng.random() < 0.5}, res)
+                      "prelude": rng.random() < 0.5, "pseed": rng.randrange(10**6), "resort": rng.random() < 0.5,
+                      "kindsub": rng.random() < 0.3, "ext": rng.random() < 0.3, "bycopy": rng.random() < 0.3}, res)
             if res.expired():
                 break
